@@ -274,6 +274,31 @@ def run(rep, tier):
         adv = {T.show(p["pc"]) if p.get("pc") is not None else None for p in cm.paths(LDDW, 1, 0) if not p.get("err")}
         rep.ob(rk, "cranelift/lddw", adv == {T.show(pc2)}, "Cranelift translate: pc after the wide-load arm", expected=T.show(pc2), found=sorted(str(a) for a in adv))
 
+    # an import that no registered symbol resolves makes cranelift-jit panic in finalize_definitions
+    import props.c08 as c08
+    c08.helper_symbol_rules(rep, ccx)
+
+    # R12.l block map discipline
+    rl = rep.rule("R12.l", "Cranelift: a block handed out for an instruction index is never replaced (the pc -> block map is only filled through entry().or_insert*), so every block a jump site recorded is the one the instruction is translated into", floor=1)
+    Fc = ccx.F
+    over, fills = [], 0
+    for pth, fnc in Fc.fns.items():
+        if not pth.startswith("cranelift::") or not fnc.get("thir"):
+            continue
+        for n in walk(fnc["thir"]["body"]):
+            if n.get("k") != "call":
+                continue
+            cp = callee_path(n) or ""
+            recv = repr(n["args"][0])[:3000] if n.get("args") else ""
+            if "'insn_blocks'" not in recv:
+                continue
+            if cp.endswith("::insert"):
+                over.append("%s (%s)" % (pth, n.get("line")))
+            elif cp.endswith("::entry"):
+                fills += 1
+    rep.ob(rl, "insn_blocks", fills >= 1 and not over, "writes to the pc -> block map", expected="entry(pc).or_insert_with(create_block) only",
+           found=over or "%d entry() sites, no insert()" % fills)
+
     # R12.e repeatability
     re_ = rep.rule("R12.e", "no clock / RNG / environment access reachable from the compilers", floor=1)
     bad = sorted({e for p in reach for e in cx.cg.ext.get(p, ()) if IMPURE.search(e)})
